@@ -754,34 +754,41 @@ Proof.
 Qed.
 
 Theorem predict_proba_multi (output : dmat) (o : nat) :
-  (2 <= o)%nat -> (forall row, In row output -> length row = o) -> predict_proba output = Ok output.
+  (2 <= o)%nat -> (forall row, In row output -> length row = o) -> predict_proba output = output.
 Proof.
   intros Ho Hrows. destruct output as [|row rest]; [reflexivity|].
   specialize (Hrows row (or_introl eq_refl)). destruct row as [|x [|y t]]; cbn in Hrows; try lia; reflexivity.
 Qed.
 
-(** Single output channel: the coded call [np.vstack(1 - probs, probs)] raises, although the two-column
-    matrix the docstring describes would have rows summing to 1. *)
-Theorem predict_proba_single_refuted :
+(** Single output channel: predict_proba returns the two columns (1 - p, p), whose rows sum to 1. *)
+Theorem predict_proba_single (output : dmat) :
+  (forall row, In row output -> length row = 1%nat) ->
+  length (predict_proba output) = length output /\
+  forall i, (i < length output)%nat ->
+    exists p, nth i output [] = [p] /\ nth i (predict_proba output) [] = [1 - p; p] /\
+              sumq (nth i (predict_proba output) []) == 1.
+Proof.
+  intros H.
+  assert (predict_proba output = map (fun row => match row with [p] => [1 - p; p] | _ => row end) output) as E.
+  { destruct output as [|row rest]; [reflexivity|].
+    pose proof (H row (or_introl eq_refl)) as Hr. destruct row as [|x [|y t]]; cbn in Hr; try lia. reflexivity. }
+  rewrite E. split; [apply map_length|].
+  intros i Hi. pose proof (H (nth i output []) (nth_In _ _ Hi)) as Hr.
+  destruct (nth i output []) as [|p [|y t]] eqn:En; cbn in Hr; try lia.
+  exists p. split; [reflexivity|].
+  rewrite (nth_map_default _ output i []) by exact Hi. rewrite En. split; [reflexivity|]. cbn. ring.
+Qed.
+
+(** Legacy (before repo commit 166aefc2): the coded call [np.vstack(1 - probs, probs)] raised. *)
+Theorem predict_proba_single_legacy_refuted :
   exists output : dmat,
     (forall row, In row output -> length row = 1%nat) /\ output <> [] /\
-    predict_proba output = Err TypeError /\
-    forall row, In row (predict_proba_intended output) -> sumq row == 1.
+    predict_proba_legacy output = Err TypeError.
 Proof.
-  exists [[1 # 4]; [3 # 4]]. split; [|split; [|split]].
+  exists [[1 # 4]; [3 # 4]]. split; [|split].
   - intros row [H|[H|[]]]; subst row; reflexivity.
   - discriminate.
   - reflexivity.
-  - intros row [H|[H|[]]]; subst row; reflexivity.
-Qed.
-
-Theorem predict_proba_intended_rows (output : dmat) :
-  (forall row, In row output -> length row = 1%nat) ->
-  forall row, In row (predict_proba_intended output) -> length row = 2%nat /\ sumq row == 1.
-Proof.
-  intros H row Hrow. unfold predict_proba_intended in Hrow. apply in_map_iff in Hrow.
-  destruct Hrow as [r [E Hr]]. specialize (H r Hr). destruct r as [|p [|y t]]; cbn in H; try lia.
-  subst row. split; [reflexivity|]. cbn. ring.
 Qed.
 
 Lemma Forall2_impl {X Y} (P Q : X -> Y -> Prop) l1 l2 :
